@@ -114,3 +114,125 @@ def children(t, static_syms=(), path=""):
             out += children(x, static_syms, f"{path}[{i}]")
         return out
     return [(path or "<root>", t, kind(t, static_syms))]
+
+
+# ---------------------------------------------------------------- AST-level kinds (math.* vs jax.numpy.* is kept)
+import ast as _ast
+
+_STATIC_CALLS = {"float", "int", "len", "max", "min", "abs", "round", "tuple", "bool", "str", "sum", "sorted", "range"}
+_ARRAY_ROOTS = ("jnp.", "jax.", "np.", "numpy.", "jr.", "lax.", "jsp.")
+
+
+def ast_kind(node, names: dict):
+    """static / array / unknown for a constructor expression; `names` maps local names and 'self.x' to kinds."""
+    if isinstance(node, _ast.Constant):
+        return "static"
+    if isinstance(node, _ast.Name):
+        return names.get(node.id, "unknown")
+    if isinstance(node, _ast.Attribute):
+        src = _ast.unparse(node)
+        if src in names:
+            return names[src]
+        if node.attr in ("shape", "ndim", "size", "dtype"):
+            return "static"
+        return "unknown"
+    if isinstance(node, _ast.Call):
+        f = _ast.unparse(node.func)
+        if f.startswith("math.") or f in _STATIC_CALLS or f.rsplit(".", 1)[-1] in (
+                "shape", "ndim", "size", "broadcast_shapes", "result_type", "finfo", "iinfo", "issubdtype"):
+            return "static"  # returns a Python number / tuple whatever it is given
+        if f.startswith(_ARRAY_ROOTS) or f == "arraylike_to_array":
+            return "array"
+        if isinstance(node.func, _ast.Attribute) and node.func.attr == "item":
+            return "static"
+        return "unknown"
+    if isinstance(node, (_ast.BinOp,)):
+        return _join((ast_kind(node.left, names), ast_kind(node.right, names)))
+    if isinstance(node, _ast.UnaryOp):
+        return ast_kind(node.operand, names)
+    if isinstance(node, _ast.IfExp):
+        return _join((ast_kind(node.body, names), ast_kind(node.orelse, names)))
+    if isinstance(node, (_ast.Tuple, _ast.List)):
+        return _join(ast_kind(e, names) for e in node.elts)
+    if isinstance(node, _ast.Subscript):
+        return ast_kind(node.value, names)
+    if isinstance(node, (_ast.Compare, _ast.BoolOp)):
+        return "unknown"
+    return "unknown"
+
+
+def init_field_kinds(prog, c):
+    """Kinds of the values __init__ stores in self.<field> (flow-insensitive join over assignments), straight-line
+    abstract evaluation of the constructor body."""
+    from ..taint import ann_is_static
+    r = prog.find_method(c, "__init__")
+    if r is None:
+        return {}
+    fn = r[1]
+    names = {}
+    a = fn.args
+    for p in (a.posonlyargs + a.args + a.kwonlyargs)[1:]:
+        st = ann_is_static(_ast.unparse(p.annotation)) if p.annotation is not None else None
+        names[p.arg] = "static" if st is True else "array" if st is False else "unknown"
+    me = a.args[0].arg if a.args else "self"
+    out = {}
+
+    def assign(t, k, lineno):
+        if isinstance(t, _ast.Name):
+            names[t.id] = k
+        elif isinstance(t, _ast.Attribute) and isinstance(t.value, _ast.Name) and t.value.id == me:
+            names[f"{me}.{t.attr}"] = k
+            prev = out.get(t.attr)
+            out[t.attr] = (k if prev is None else _join((prev[0], k)), lineno)
+        elif isinstance(t, (_ast.Tuple, _ast.List)):
+            for e in t.elts:
+                assign(e, k if k != "static" else "static", lineno)
+
+    def visit(stmts):
+        for st in stmts:
+            if isinstance(st, _ast.Assign):
+                k = ast_kind(st.value, names)
+                if isinstance(st.value, _ast.Tuple) and len(st.targets) == 1 and isinstance(st.targets[0], _ast.Tuple) \
+                        and len(st.value.elts) == len(st.targets[0].elts):
+                    for t, v in zip(st.targets[0].elts, st.value.elts):
+                        assign(t, ast_kind(v, names), st.lineno)
+                    continue
+                for t in st.targets:
+                    assign(t, k, st.lineno)
+            elif isinstance(st, _ast.AnnAssign) and st.value is not None:
+                assign(st.target, ast_kind(st.value, names), st.lineno)
+            elif isinstance(st, (_ast.If, _ast.For, _ast.While, _ast.With)):
+                visit(st.body)
+                visit(getattr(st, "orelse", []))
+    visit(fn.body)
+    return out
+
+
+def rule_static_fields(prog, rep, R, classes, minimum=1):
+    """A field declared with a Python-static annotation (float, int, bool, tuple[int, ...]) is a constant of the
+    object only if the constructor stores a Python value in it: a jax array there is an inexact pytree leaf, which
+    optimisers move and get_ravelled_pytree_constructor hands to a conditioner."""
+    from ..taint import ann_is_static
+    rep.rule(R, "every field annotated as a Python scalar / tuple (float, int, bool, tuple[...]) that a constructor "
+                "assigns receives a Python-static value (constants, math.*, float()/int(), static parameters), never a "
+                "jax array: an array there is a trainable / conditioner-parameterised pytree leaf, so what the class "
+                "documents as a constant derived from its parameters (LeakyTanh's tail slope and intercept, a spline's "
+                "interval) drifts away from them", minimum=minimum)
+    n = 0
+    for c in classes:
+        kinds = init_field_kinds(prog, c)
+        for fname, (k, line) in sorted(kinds.items()):
+            fi = prog.find_field(c, fname)
+            if fi is None or ann_is_static(fi[1].ann_src) is not True:
+                continue
+            n += 1
+            site = f"{c.module.relpath}:{line}"
+            key_ = f"{c.qualname}.{fname}:static-annotation-holds-static-value"
+            if k == "array":
+                rep.violated(R, site, key_,
+                             f"{c.name}.{fname} is declared `{fi[1].ann_src}` but __init__ stores the result of a jax / numpy "
+                             f"array operation: it becomes an inexact-array pytree leaf that training moves independently of "
+                             f"the parameters it was computed from")
+            else:
+                rep.holds(R, site, key_, f"stores a {k} value")
+    return n
